@@ -303,6 +303,7 @@ func init() {
 		Once:  c19Once,
 		Cases: func(c *mon.Ctx) int { return c.Pick(150000, 3000000) },
 		RunCase: func(c *mon.Ctx, i int) {
+			disturb(c, i)
 			rng := c.Rng(i, 0)
 			g := lint.GlobalRegistry()
 			if i%10 != 0 {
@@ -520,6 +521,7 @@ func init() {
 			var gates []string
 			ev.Coverage["distinct_nontrivial"] = r.SetSize("nets") + r.SetSize("lint_inputs")
 			ev.Coverage["relation_checks"] = r.Counters["relation_checks"]
+			ev.Coverage["unrelated_objects_linted_before_and_between_cases"] = r.Counters["disturbance_objects_linted"]
 			ev.Coverage["address_checks"] = r.Counters["address_checks"]
 			ev.Coverage["blocks"] = r.SetKeys("blocks")
 			ev.Coverage["lint_outcomes"] = r.Sets["lint_outcomes"]
